@@ -215,8 +215,8 @@ func init() { register("C04", runC04) }
 
 func runC04(c *Ctx) error {
 	out := NewOut(c.OutDir, "C04",
-		"From Coq Require Import List NArith.\nFrom AMV Require Import Conc.QueueLock Run.EvalC04.\nImport ListNotations.",
-		"c04case", "EvalC04.check_all", 500)
+		"From Coq Require Import List NArith.\nFrom AMV Require Import Conc.QueueLock.\nFrom AMV Require Import Base.ListSet Model.Schema Model.Resolver Model.Machine Run.EvalHist Run.EvalC04.\nImport ListNotations.",
+		"c04any", "EvalC04.check_all", 200)
 	forcedTotal := 0
 	emit := func(kind string, in *C04Input) {
 		obs := c04Exec(in)
@@ -234,7 +234,7 @@ func runC04(c *Ctx) error {
 			}
 		}
 		out.Count("queued_results", fmt.Sprint(nq))
-		out.Add(kind, in, obs, c04Coq(in, obs), len(in.Schedule) == 0, "")
+		out.Add(kind, in, obs, "C04G ("+c04Coq(in, obs)+")", len(in.Schedule) == 0, "")
 	}
 	cases, replayOnly := c.loadCases()
 	for _, cc := range cases {
@@ -276,6 +276,26 @@ func runC04(c *Ctx) error {
 				}
 			}
 			emit("random", in)
+		}
+	}
+	if !replayOnly {
+		// sequential stream: handlers issuing mutations, checks (prepended) and
+		// AddErr while transitions run; every returned queue tick must resolve
+		o := GenOpt{MinStates: 2, MaxStates: 6, AutoPct: 20, MultiPct: 30, MinCalls: 2, MaxCalls: 12,
+			Handlers: true, VetoPct: 15, NestedPct: 60, Checks: true, AddErr: true}
+		n := c.N(200, 8000)
+		for i := 0; i < n; i++ {
+			in := genHistory(c.Rng, o)
+			ob := runHistory(in)
+			if ob.ParseErr != "" || ob.Err != "" {
+				continue
+			}
+			nested := 0
+			for _, h := range ob.HLog {
+				nested += len(h.Results)
+			}
+			out.Count("nested_mutations", bucket(nested))
+			out.Add("sequential-nested", in, ob, "C04H ("+coqHCase(in, ob)+")", nested == 0, "")
 		}
 	}
 	if !replayOnly && forcedTotal == 0 {
